@@ -1033,6 +1033,10 @@ func runC04(c *Ctx) {
 	// R13 (shared with C13.R4 / C01.R18): the error of a chunk in the sequential loops is what the call returns — a
 	// connection lost during the last chunk must not be overwritten by the source's io.EOF and reported as success
 	checkSequentialLoops(c, "R13")
+	// R14 (shared with C19.R8): a client whose handshake failed leaves no goroutine or session behind
+	checkFailedConstructionReleasesSession(c, "R14")
+	// R15 (shared with C20.Z8): with a worker count of zero WriteTo never returns, whatever happens to the connection
+	checkWorkerCountBounded(c, "R15")
 
 	// ---------- R8 no client lock is leaked: a later call would hang ----------
 	checkLockBalance(c, "R8", func(fn *ssa.Function) bool { return !isServerSide(fn) && outermost(fn).Package() == p.Sftp }, 15)
